@@ -52,7 +52,7 @@ func verifObserve(label string, v uint64) {}
 		sb.WriteString("\nfunc vdoc(m map[string]any) []byte { panic(\"symbolic only\") }\n")
 	}
 	if bolt {
-		sb.WriteString("\nfunc vboltbucket(keys, vals [][]byte) *bbolt.Bucket { panic(\"symbolic only\") }\n")
+		sb.WriteString("\nfunc vboltbucket(keys, vals [][]byte) *bbolt.Bucket { panic(\"symbolic only\") }\nfunc vboltdb() *bbolt.DB { panic(\"symbolic only\") }\nfunc vboltopentx(db *bbolt.DB) int { panic(\"symbolic only\") }\nfunc vboltfaults(db *bbolt.DB, on bool) {}\nfunc vscratchpath() string { return \"/scratch/backup.bbolt\" }\n")
 		return strings.Replace(sb.String(), "package "+pkg+"\n", "package "+pkg+"\n\nimport \"go.etcd.io/bbolt\"\n", 1)
 	}
 	return sb.String()
@@ -160,6 +160,61 @@ func vdoc(m map[string]any) []byte {
 	if bolt {
 		sb.WriteString(`
 var verifTmpFiles []string
+
+// a real, empty bbolt database in a scratch file
+func vboltdb() *bbolt.DB {
+	f, err := os.CreateTemp("", "verifboltdb")
+	if err != nil {
+		panic(err)
+	}
+	path := f.Name()
+	f.Close()
+	verifTmpFiles = append(verifTmpFiles, path)
+	db, err := bbolt.Open(path, 0600, nil)
+	if err != nil {
+		panic(err)
+	}
+	return db
+}
+
+// transactions still open: read transactions from the statistics, a leaked read-write
+// transaction by probing the writer lock
+func vboltopentx(db *bbolt.DB) int {
+	n := db.Stats().OpenTxN
+	got := make(chan *bbolt.Tx, 1)
+	go func() {
+		tx, err := db.Begin(true)
+		if err != nil {
+			got <- nil
+			return
+		}
+		got <- tx
+	}()
+	select {
+	case tx := <-got:
+		if tx != nil {
+			tx.Rollback()
+		}
+	case <-time.After(300 * time.Millisecond):
+		n++
+	}
+	return n
+}
+
+// environment faults (commit failure) cannot be injected into the real library
+func vboltfaults(db *bbolt.DB, on bool) {}
+
+func vscratchpath() string {
+	f, err := os.CreateTemp("", "verifscratch")
+	if err != nil {
+		panic(err)
+	}
+	path := f.Name()
+	f.Close()
+	os.Remove(path)
+	verifTmpFiles = append(verifTmpFiles, path)
+	return path
+}
 
 // a real bbolt bucket holding the given keys, inside a read transaction of a scratch database
 func vboltbucket(keys, vals [][]byte) *bbolt.Bucket {
